@@ -176,41 +176,59 @@ def isDigitB (b : UInt8) : Bool := isDigitN b.toNat
 /-- `strtoul(s, &end, 10)` as an `unsigned long` (LP64): optional white space, optional
 sign, at least one digit; saturates at `2^64-1`; a minus sign negates modulo `2^64`.
 `none` = no conversion (`end == s`). -/
+def decVal (ds : List UInt8) : Nat := ds.foldl (fun a d => a * 10 + (d.toNat - 48)) 0
+
+/-- sign handling of `strtoul`: `(negative, rest)` -/
+def signOf (s1 : List UInt8) : Bool × List UInt8 :=
+  match s1 with
+  | [] => (false, s1)
+  | c :: t => if c = 45 then (true, t) else if c = 43 then (false, t) else (false, s1)
+
 def strtoul (s : List UInt8) : Option (Nat × List UInt8) :=
   let s1 := s.dropWhile isSpaceB
-  let (neg, s2) := match s1 with
-    | 45 :: t => (true, t)
-    | 43 :: t => (false, t)
-    | _ => (false, s1)
+  let neg := (signOf s1).1
+  let s2 := (signOf s1).2
   let ds := s2.takeWhile isDigitB
   if ds.isEmpty then none else
-  let v : Nat := ds.foldl (fun a d => a * 10 + (d.toNat - 48)) 0
+  let v : Nat := decVal ds
   let v' : Nat := if v ≥ 2 ^ 64 then 2 ^ 64 - 1 else if neg then (2 ^ 64 - v) % 2 ^ 64 else v
   some (v', s2.dropWhile isDigitB)
+
+/-- the optional `,max` part: `(b, end)` -/
+def upperOf (a : Nat) (e1 : List UInt8) : Nat × List UInt8 :=
+  match e1 with
+  | [] => (a, e1)
+  | c :: t =>
+    if c = 44 then                                     -- ','
+      match strtoul t with
+      | some (b, e) => (b, e)
+      | none => (Gen.C04.MAX_COUNT, t)
+    else (a, e1)
+
+/-- range check and terminator of `op_count_full` -/
+def countTail (ext : Bool) (a : Nat) (be : Nat × List UInt8) : Except Code (Nat × Option Nat × List UInt8) :=
+  let b := be.1
+  let e2 := be.2
+  if a > b || b > Gen.C04.MAX_COUNT || a ≥ Gen.C04.MAX_COUNT then .error .badbr
+  else
+    let n := if b = Gen.C04.MAX_COUNT then none else some b
+    let bad : Except Code (Nat × Option Nat × List UInt8) :=
+      if e2.contains 125 then .error .badbr else .error .ebrace
+    if ext then
+      match e2 with
+      | [] => bad
+      | c :: r => if c = 125 then .ok (a, n, r) else bad   -- '}'
+    else
+      match e2 with
+      | c :: d :: r => if c = 92 ∧ d = 125 then .ok (a, n, r) else bad   -- "\}"
+      | _ => bad
 
 /-- `op_count_full` after its `op_count_simple` sanity check: text after `{` (or `\{`) -/
 def parseCount (ext : Bool) (s : List UInt8) : Except Code (Nat × Option Nat × List UInt8) :=
   match strtoul s with
   | none => .error .ebrace
-  | some (a, e1) =>
-    let (b, e2) := match e1 with
-      | 44 :: t => (match strtoul t with            -- ','
-          | some (b, e) => (b, e)
-          | none => (Gen.C04.MAX_COUNT, t))
-      | _ => (a, e1)
-    if a > b || b > Gen.C04.MAX_COUNT || a ≥ Gen.C04.MAX_COUNT then .error .badbr
-    else
-      let n := if b = Gen.C04.MAX_COUNT then none else some b
-      let bad : Except Code (Nat × Option Nat × List UInt8) :=
-        if e2.contains 125 then .error .badbr else .error .ebrace
-      if ext then
-        match e2 with
-        | 125 :: r => .ok (a, n, r)                    -- '}'
-        | _ => bad
-      else
-        match e2 with
-        | 92 :: 125 :: r => .ok (a, n, r)              -- "\}"
-        | _ => bad
+  | some (a, e1) => countTail ext a (upperOf a e1)
+
 
 /-! ## lexers -/
 
@@ -404,7 +422,13 @@ def compile (cflags : Nat) (pat : List UInt8) : Except Code (Re × Nat) :=
 
 /-! ## renderers (concrete syntax of a tree) -/
 
-def digits (n : Nat) : List UInt8 := (toString n).toUTF8.toList
+/-- decimal digits, most significant first (`fuel > n` suffices) -/
+def digitsF : Nat → Nat → List UInt8
+  | 0, _ => []
+  | f + 1, n =>
+    if n < 10 then [UInt8.ofNat (48 + n)] else digitsF f (n / 10) ++ [UInt8.ofNat (48 + n % 10)]
+
+def digits (n : Nat) : List UInt8 := digitsF (n + 1) n
 
 /-- the text between the braces -/
 def countBody (m : Nat) (n : Option Nat) : List UInt8 :=
